@@ -12,7 +12,7 @@ RULE = ('corpus; exhaustive scope: all 65536 boolean 4x4 images x {4,8}-neighbou
         'elements None/4/8/6/box/arbitrary 3^d/other odd and even shapes/larger than the image/empty, with and '
         'without an int32 out= buffer. Labels are compared exactly with the Lean specification (no canonicalisation). '
         'Size-threshold stream: images whose number of components, component size or row length crosses 2^15 / 2^16 '
-        '(checkerboard 363x363 with the cross: 65 885 components), judged with an exact Python union-find oracle whose '
+        '(two-pixel dominoes on 600x700: 70 200 components; checkerboard 363x363 with the cross: 65 885), judged with an exact Python union-find oracle whose '
         'agreement with the Lean specification is checked on every small random case of the run. '
         '2 % of the random images have a zero-length axis. Non-trivial = at least two foreground pixels and one background pixel or >= 2 components; '
         'distinct = distinct (shape, binarised data, element).')
@@ -96,6 +96,10 @@ def _big_image(c):
     elif c['big'] == 'solid':                  # one component of h*w - (holes) pixels
         A = np.ones((h, w), bool)
         A[c.get('hole', 0) % h, c.get('hole', 0) % w] = False
+    elif c['big'] == 'dominoes':               # two-pixel components `11 0 11 0 …` on every other row: the SECOND pixel of a
+        A = np.zeros((h, w), bool)             # component gets its label from the first-seen map, not from the counter
+        A[::2, 0::3] = True
+        A[::2, 1::3] = True
     else:                                      # 'rows': every other row is one long component
         A = np.zeros((h, w), bool)
         A[::2] = True
@@ -317,7 +321,8 @@ def cases(rng, tier):
             out.append(dict(block='elem', shape=shp, elems=sorted(rng.sample(range(512), 40))))
     # size-threshold stream: component counts / component sizes / pixel counts crossing 2^15, 2^16 (a label, index or
     # counter narrowed to 16 bits passes every small case); judged with the exact Python oracle `_oracle`
-    big = [dict(big='checker', shape=[363, 363], bc=4, dtype='bool'),            # 65 885 components (> 65 535)
+    big = [dict(big='dominoes', shape=[600, 700], bc=4, dtype='bool'),           # 70 200 two-pixel components (> 65 535)
+           dict(big='checker', shape=[363, 363], bc=4, dtype='bool'),            # 65 885 components (> 65 535)
            dict(big='checker', shape=[257, 256], bc=rng.choice([4, None]), dtype='uint8'),   # 32 896 components (> 32 767)
            dict(big='solid', shape=[257, 256], bc=rng.choice([4, 8]), hole=rng.randrange(999), dtype='bool'),   # one component of 65 791 pixels
            dict(big='rows', shape=[3, 65537], bc=8, dtype='bool'),                 # rows longer than 2^16
